@@ -314,6 +314,9 @@ Definition get_chains_of (cs : list concept) (parents : nat -> list nat) : optio
   chains_loop (S n) n parents isort_i i_isort [] [].
 Definition get_chains_nocache (cs : list concept) : option (list (list nat)) :=
   get_chains_of cs (parents_nocache cs).
+(* _get_chains(..., is_concepts_sorted=True): positions are taken for sort positions *)
+Definition get_chains_sorted_of (cs : list concept) (parents : nat -> list nat) : option (list (list nat)) :=
+  let n := length cs in chains_loop (S n) n parents (fun k => k) (fun i => i) [] [].
 
 (* ------------------------------------------------------------------ reduced labels (C04)
    new_extent_i = set(extent_i) - {g for child in children for g in child.extent_i}
